@@ -33,7 +33,7 @@ LIB = ['arith_uint256', 'base58', 'bech32', 'consensus/merkle', 'crypto/hmac_sha
 MAINS = ['btcdeb', 'btcc', 'tap']
 SECP_C = ['secp256k1/src/secp256k1.c', 'secp256k1/src/precomputed_ecmult.c', 'secp256k1/src/precomputed_ecmult_gen.c']
 
-UBSAN = '-fsanitize=integer-divide-by-zero,bounds,null,unreachable,return'
+UBSAN = '-fsanitize=integer-divide-by-zero,bounds,null,unreachable,return,enum,bool'
 VARIANTS = {
     # the project's own flags: g++ -std=c++17, no optimisation, asserts on
     'plain': dict(cxx='g++', cc='gcc', cxxflags=['-std=c++17', '-O0'], ldflags=[]),
